@@ -84,6 +84,12 @@ namespace {
             t2["k"] = J("throw2");
             t2["id"] = J(next_id++);
             cb.push(t2);
+          } else if (rng.chance(180)) {
+            // the clause throws the object it caught again
+            J rt = J::object();
+            rt["k"] = J("rethrow");
+            rt["id"] = J(next_id++);
+            cb.push(rt);
           } else if (rng.chance(200)) {
             cb.push(stmt(d - 1));
           }
@@ -148,6 +154,9 @@ namespace {
       }
       if (k == "throw2") {
         return "t(" + std::to_string(s.at("id").num()) + "); throw(777);";
+      }
+      if (k == "rethrow") {
+        return "t(" + std::to_string(s.at("id").num()) + "); throw(e);";
       }
       if (k == "wrap") {
         const std::string b = body(s.at("body"));
@@ -216,6 +225,7 @@ namespace {
     int site, kind;
     std::vector<int> trace;
     std::map<std::string, int64_t> probes;
+    std::vector<Exc> caught; // exceptions whose catch clause is currently running (innermost last)
     Exc primary() const {
       Exc e;
       e.active = true;
@@ -254,6 +264,22 @@ namespace {
         e.leave_spec = "int|777";
         return e;
       }
+      if (k == "rethrow") {
+        trace.push_back(int(s.at("id").num()));
+        probes["probe_caught_object_thrown_again"] += 1;
+        Exc e = caught.empty() ? Exc() : caught.back();
+        // thrown by script now: it leaves eval as a Boxed_Value holding the same object
+        if (e.leave.rfind("Boxed_Value|", 0) != 0) {
+          if (e.type == "eval_error") {
+            e.leave = "Boxed_Value|eval_error:" + e.leave.substr(e.leave.find('|') + 1);
+          } else {
+            const size_t bar = e.leave.find('|');
+            e.leave = "Boxed_Value|exc:" + e.leave.substr(0, bar) + ":" + e.leave.substr(bar + 1);
+          }
+          e.leave_spec = e.leave;
+        }
+        return e;
+      }
       if (k == "wrap" || k == "call") {
         return body(s.at("body")); // frames and wrappers are transparent for exceptions
       }
@@ -272,7 +298,9 @@ namespace {
               if (i > 0) {
                 probes["probe_earlier_clause_skipped"] += 1;
               }
+              caught.push_back(r);
               r = body(cs[i].at("body")); // at most one clause per exception
+              caught.pop_back();
               if (r.active) {
                 probes["probe_catch_block_threw"] += 1;
               }
